@@ -210,6 +210,7 @@ func c04Gen(rng *verifsim.RNG, idx int, tier string) *Plan {
 			p.Horizon = t0 + 2*nsSec
 		}
 	}
+	monitorStanzaAnywhere(rng, p)
 	return p
 }
 
